@@ -63,7 +63,9 @@ def confirm(mod, failure):
 
 
 def _reach(mod, rec, src, q, detail):
-    if not getattr(mod, 'needs_reach', False) or q.get('no_reach'):
+    obl_name = (detail.get('obligation') if isinstance(detail, dict) else None) or ''
+    if not getattr(mod, 'needs_reach', False) or q.get('no_reach') or \
+       obl_name.split('@')[0] in getattr(mod, 'NO_REACH_OBLIGATIONS', ()):
         return 'confirmed', detail
     from . import reach
     hist = reach.find_history(src.m, q)
